@@ -493,6 +493,8 @@ struct Rw<'a> {
     /// T16: depth of loop nesting below the function's tail `loop` (0 = not inside it)
     tail_loop_depth: usize,
     tail_loop_start: Option<usize>,
+    /// for-loops: (ordinal among all loops, start of the iterable expression)
+    for_iters: Vec<(usize, usize)>,
 }
 
 fn path_is(p: &syn::Path, segs: &[&str]) -> bool {
@@ -798,6 +800,7 @@ impl<'a, 'ast> Visit<'ast> for Rw<'a> {
             }
             syn::Expr::ForLoop(l) => {
                 let b = &l.body;
+                self.for_iters.push((self.loops.len(), self.r(l.expr.span()).0));
                 self.loops.push((self.r(b.brace_token.span.open()).0, self.r(b.brace_token.span.close()).0, self.r(l.span()).0));
                 if self.tail_loop_depth > 0 { self.tail_loop_depth += 1; }
                 visit::visit_expr(self, e);
@@ -1197,6 +1200,7 @@ fn new_rw<'a>(src: &'a Src, facts: &'a Facts) -> Rw<'a> {
         aliases: HashMap::new(),
         tail_loop_depth: 0,
         tail_loop_start: None,
+        for_iters: vec![],
     }
 }
 
@@ -1280,7 +1284,7 @@ fn emit_fn(src: &Src, facts: &Facts, spec: &FnSpec, vspec_name: &str, out: &mut 
         }
         // end: before the tail expression / at the end of the body
         let end_at = match loc.block.stmts.last() {
-            Some(syn::Stmt::Expr(e, None)) => src.range(e.span()).0,
+            Some(syn::Stmt::Expr(e, None)) if has_ret => src.range(e.span()).0,
             _ => body_close.0,
         };
         if let Some(b) = spec.at.get("end") {
@@ -1334,6 +1338,12 @@ fn emit_fn(src: &Src, facts: &Facts, spec: &FnSpec, vspec_name: &str, out: &mut 
             let key = format!("loop-begin {k}");
             if let Some(b) = spec.at.get(&key) {
                 rw.ed.splice(*open + 1, &format!("\n{}", b.text), &tag(&key, b), false);
+            }
+        }
+        for (ord, at) in rw.for_iters.clone() {
+            // name the ghost iterator of a for loop so that invariants can mention its bounds
+            if let Some(nm) = spec.opts.iter().find_map(|o| o.strip_prefix(&format!("loop-iter-{ord}="))) {
+                rw.ed.splice(at, &format!("{nm}: "), "annotation:loop-iter", false);
             }
         }
         let arms = rw.arms.clone();
